@@ -1,4 +1,60 @@
-import AdfModel.Api
+/-
+  C02 — Namespace fidelity.
+  What is proved on the model (for every chain layout on the disk, every position of the entry in its chain, every
+  name and case variant, both case-folding tables):
+   * lookup refines the abstract map "first entry of the slot's chain whose name is `sameName`": the block returned
+     by `adfNameToEntryBlk` is the first match, wherever it sits (head, middle, tail); no match ⇒ not found, and the
+     tail of the chain is reported for linking;
+   * the comparison is the equivalence relation of C15, and two equal names always live in the same slot (C15), so a
+     name has at most one reachable entry per directory as long as creation refuses duplicates — which it does:
+   * `adfCreateEntry` with a name that already exists returns failure having written nothing, with the bitmap and all
+     other library memory untouched (first of the "failed calls change nothing" cases; it is the kernel shared by
+     create-file, create-directory and rename's destination).
+  Everything else of C02 — the full tree equality over histories, delete/rename/move, every other failing call, free
+  block counts — is decided on the real code by the history checks against the reference tree model
+  (tools/spec.py) and the independent decoder, with the model tied trace-exactly.  (MANIFEST: partial.)
+-/
+import AdfProofs.NamespaceLemmas
+import AdfProps.C15
 namespace Adf.C02
-theorem C02_placeholder : True := trivial
+open Adf
+
+/-- lookup over any chain on a healthy device equals the reference lookup -/
+theorem C02_lookup_refines (c : Cfg) (v : Nat) (intl : Bool) (name : Bytes) (chain : List (Nat × Blk))
+    (fuel n upd : Nat) (last : Blk) (s : St)
+    (hne : chain ≠ []) (hlen : chain.length ≤ fuel) (hf : s.faultAt = none) (hch : ChainOn c s.disk v n chain) :
+    Post (fun _ => False) c (nameToEntryBlkLoop v intl name fuel n upd) s (fun r s' =>
+      r = lookupSpec intl name chain upd last ∧ s'.disk = s.disk ∧ s'.faultAt = none ∧ s'.mem = s.mem ∧
+      writesOf s'.trace = writesOf s.trace) :=
+  nameToEntryBlkLoop_spec c v intl name chain fuel n upd last s hne hlen hf hch
+
+/-- the reference lookup returns the first match, with the block preceding it as the update point -/
+theorem C02_first_match (intl : Bool) (name : Bytes) (pre : List (Nat × Blk)) (n : Nat) (b : Blk)
+    (post : List (Nat × Blk)) (upd : Nat) (last : Blk)
+    (hpre : ∀ e ∈ pre, ¬ nameMatches intl name e.2) (hm : nameMatches intl name b) :
+    lookupSpec intl name (pre ++ (n, b) :: post) upd last = (some n, b, (pre.getLast?.map (·.1)).getD upd) :=
+  lookupSpec_first_match intl name pre n b post upd last hpre hm
+
+/-- … and "not found" exactly when no entry of the chain matches -/
+theorem C02_not_found (intl : Bool) (name : Bytes) (chain : List (Nat × Blk)) (upd : Nat) (last : Blk)
+    (hne : chain ≠ []) (hno : ∀ e ∈ chain, ¬ nameMatches intl name e.2) :
+    (lookupSpec intl name chain upd last).1 = none := by
+  rw [lookupSpec_none intl name chain upd last hne hno]
+
+/-- the comparison used along the chain is C15's `sameName` on the stored name -/
+theorem C02_comparison_is_sameName (intl : Bool) (name : Bytes) (b : Blk) (hb : b.nameLen ≤ 30) :
+    nameMatches intl name b ↔ sameName intl name (b.bytes O_name b.nameLen) = true :=
+  nameMatches_iff_sameName intl name b hb
+
+/-- creating an existing name fails and changes nothing -/
+theorem C02_create_existing_changes_nothing (c : Cfg) (v : Nat) (dir : Blk) (name : Bytes)
+    (chain : List (Nat × Blk)) (s : St)
+    (hf : s.faultAt = none)
+    (hch : ChainOn c s.disk v (dir.hash (hashName (useIntl (c.vol v).dosType) name)) chain)
+    (hne : chain ≠ []) (hlen : chain.length ≤ (c.vol v).lastBlock - (c.vol v).firstBlock + 1)
+    (hex : ∃ e ∈ chain, nameMatches (useIntl (c.vol v).dosType) name e.2) :
+    Post (fun _ => False) c (createEntry v dir name) s (fun r s' =>
+      r = (none, dir) ∧ s'.disk = s.disk ∧ s'.mem = s.mem ∧ writesOf s'.trace = writesOf s.trace) :=
+  createEntry_duplicate_refused c v dir name chain s hf hch hne hlen hex
+
 end Adf.C02
